@@ -146,7 +146,14 @@ def explore(run, bound=None, max_executions=None, double_every=50, on_exec=None,
             stats.executions % double_every == 1 or violations
         ):
             ctx2 = Ctx(tuple(ctx.choices), list(ctx.points))
-            obs2, violations2 = run(ctx2)
+            try:
+                obs2, violations2 = run(ctx2)
+            except ReplayDivergence as exc:
+                # the second run of the very same choices met other decision
+                # points: behaviour depends on what ran before in this process
+                # (tolerated only next to reported violations, see below)
+                diverged.append(str(exc))
+                obs2, violations2, ctx2 = obs, violations, ctx
             stats.double_runs += 1
             if obs2 != obs or ctx2.choices != ctx.choices or bool(violations2) != bool(
                 violations
